@@ -305,6 +305,35 @@ pub fn run_c13(ctx: &mut Ctx) {
             }
         }
     }
+    // ---- ... nor does what the block handler did on this thread (a request it refused during size negotiation)
+    if shard == 0 || level == 0 {
+        use coap_lite::{BlockHandler, BlockHandlerConfig, CoapRequest, Packet};
+        for (budget_bytes, pathlen, also_response) in [(32usize, 60usize, false), (32, 60, true), (1152, 1300, false), (1152, 1300, true), (64, 10, false), (16, 1, false), (16, 1, true)] {
+            let mut handler: BlockHandler<u8> = BlockHandler::new(BlockHandlerConfig { max_total_message_size: budget_bytes, ..Default::default() });
+            let mut p = Packet::new();
+            p.add_option(coap_lite::CoapOption::UriPath, vec![b'x'; pathlen]);
+            p.add_option(coap_lite::CoapOption::Block2, vec![0x06]);
+            p.payload = vec![1; 40];
+            let mut rq = CoapRequest::from_packet(p, 1u8);
+            let first = guard(|| handler.intercept_request(&mut rq).is_err());
+            if let Some(resp) = rq.response.as_mut() {
+                resp.message.payload = vec![7; 5000];
+            }
+            let second = if also_response { guard(|| handler.intercept_response(&mut rq).is_err()) } else { Ok(false) };
+            for size in [4096usize, 4097, 8192, 1 << 20, usize::MAX, 0, 2048, 100] {
+                rep.eval();
+                let res = guard(|| BlockValue::new(3, true, size));
+                let should_fail = size == 0 || size >= 4096;
+                let wit = format!("a block handler with budget {} handled a request with a {}-byte path (intercept_request refused: {:?}, intercept_response refused: {:?}); then BlockValue::new(3, true, {})", budget_bytes, pathlen, first.as_ref().ok(), second.as_ref().ok(), size);
+                match res {
+                    Err(pn) => rep.violation(&pn.sig(), pn.text(), wit),
+                    Ok(Ok(v)) if !should_fail && (v.size_exponent as usize) == ((usize::BITS - 1 - size.leading_zeros()) as usize).max(4) - 4 => rep.count("new_after_handler_call_ok"),
+                    Ok(Err(_)) if should_fail => rep.count("new_after_handler_call_ok"),
+                    Ok(other) => rep.violation("block-new-depends-on-handler-history", format!("constructor returned {:?}", other), wit),
+                }
+            }
+        }
+    }
     // ---- fresh-process probes
     if shard == 0 {
         cold_start_probes(rep, level);
